@@ -355,3 +355,58 @@ def value_slice_calls(fn, roots, max_steps=400):
                             if x not in seen:
                                 work.append(x)
     return calls
+
+
+def cond_atoms(fn, op, depth=6):
+    """the state a branch condition tests: field paths read (directly, through copies, negations,
+    comparisons, discriminants and std helper calls such as is_some/is_empty/len) and crate-local
+    calls. Precise (value definitions only), unlike back_slice."""
+    fl = FL.flow(fn)
+    atoms = set()
+    seen = set()
+
+    def fields_of(pl):
+        return ".".join(p[2] for p in pl[1] if isinstance(p, list) and p[0] == "f" and p[2] and not p[2].isdigit())
+
+    def visit_place(pl, d):
+        f = fields_of(pl)
+        if f:
+            atoms.add(f)
+        if not pl[1] or all(x == "*" for x in pl[1]) or not f:
+            visit_local(pl[0], d)
+
+    def visit_local(l, d):
+        if d <= 0 or l in seen:
+            return
+        seen.add(l)
+        if 1 <= l <= fn.nargs:
+            atoms.add("param:%s" % fn.name_of(l))
+        for rec in fl.defs.get(l, ()):
+            if rec[0] == "stmt":
+                st = fn.blocks[rec[1]][0][rec[2]]
+                if st[1][0] != l or st[1][1]:
+                    continue
+                rv = st[2]
+                for o in rvalue_operands(rv):
+                    p = FL.op_place(o)
+                    if p is not None:
+                        visit_place(p, d - 1)
+                for p in FL.rvalue_places(rv):
+                    visit_place(p, d - 1)
+            elif rec[0] == "call":
+                t = fn.blocks[rec[1]][1]
+                c = t[1]
+                if c.get("l"):
+                    atoms.add("call:" + short(c.get("r") or c.get("p") or "?"))
+                else:
+                    for a in t[2]:
+                        p = FL.op_place(a)
+                        if p is not None:
+                            visit_place(p, d - 1)
+    p = FL.op_place(op)
+    if p is not None:
+        visit_place(p, depth)
+    return atoms
+
+
+rvalue_operands = FL.rvalue_operands
